@@ -36,6 +36,9 @@ type C10Desc struct {
 type C10Signal struct {
 	T     int64     `json:"t"`                // simulated time of the splice point (ticks from run start)
 	NoPTS bool      `json:"no_pts,omitempty"` // splice_null: the signal carries no time
+	// Shift: the command's pts_time lies Shift ticks before the signal time and pts_adjustment
+	// makes up for it (a re-stamped signal); the signal time is the same
+	Shift int64 `json:"shift,omitempty"`
 	Descs []C10Desc `json:"descs"`
 }
 
@@ -91,7 +94,7 @@ func (c10) Info() core.Info {
 			"closed lists and Open() results returned earlier must not change under later calls (they are the caller's)",
 		},
 		SimTimeUnit:    "sim_ticks_90khz",
-		RequiredProbes: []string{"breakaway_then_closer", "breakaway_then_explicit_close_below", "resumption_with_breakaway", "resumption_without_breakaway", "second_breakaway", "dup_within_ring", "dup_beyond_ring", "timer_close_hit", "timer_close_miss", "multi_descriptor_signal", "pts_wrap", "no_pts", "vss_pair", "open_depth_ge4", "transport_path", "same_object_twice", "held_lists_checked", "caller_wipes_open_list", "unpolled_stretch", "unpolled_ge_256_calls", "open_depth_ge64"},
+		RequiredProbes: []string{"breakaway_then_closer", "breakaway_then_explicit_close_below", "resumption_with_breakaway", "resumption_without_breakaway", "second_breakaway", "dup_within_ring", "dup_beyond_ring", "timer_close_hit", "timer_close_miss", "multi_descriptor_signal", "pts_wrap", "no_pts", "vss_pair", "open_depth_ge4", "transport_path", "same_object_twice", "held_lists_checked", "caller_wipes_open_list", "unpolled_stretch", "unpolled_ge_256_calls", "open_depth_ge64", "restamped_signal_through_transport", "pts_time_plus_adjustment_wraps"},
 	}
 }
 
@@ -474,6 +477,14 @@ func (c10) Gen(r *core.Rand, tier string) interface{} {
 	default:
 		s.Base = int64(r.U64() % uint64(ptsMod))
 	}
+	if r.Chance(1, 4) {
+		sh := int64(r.Pick(1, 90000, 27000000, 1<<32, 1<<33-1))
+		for i := range s.Signals {
+			if !s.Signals[i].NoPTS {
+				s.Signals[i].Shift = sh
+			}
+		}
+	}
 	if r.Bool() {
 		s.Transport = true
 		for i := r.Range(0, 6); i > 0; i-- {
@@ -547,6 +558,10 @@ func c10Build(sg C10Signal, base int64) (scte35.SCTE35, []scte35.SegmentationDes
 		cmd.SetHasPTS(true)
 		sc.SetCommandInfo(cmd)
 		sc.SetPTS(gots.PTS(uint64(base+sg.T) % uint64(ptsMod)))
+		if sg.Shift != 0 {
+			cmd.SetPTS(gots.PTS(uint64(base+sg.T-sg.Shift%ptsMod+ptsMod) % uint64(ptsMod)))
+			sc.SetAdjustPTS(gots.PTS(uint64(base+sg.T) % uint64(ptsMod)))
+		}
 	}
 	var ds []scte35.SegmentationDescriptor
 	for _, d := range sg.Descs {
@@ -1160,6 +1175,25 @@ func (c10) Exec(script interface{}, c *core.Ctx) {
 				return
 			}
 			ds = dec.Descriptors()
+			if !sg.NoPTS {
+				// the signal time survives the trip: pts_time + pts_adjustment modulo 2^33
+				want := uint64(s.Base+sg.T) % uint64(ptsMod)
+				var got uint64
+				var has bool
+				if !c.Call("SCTE35.PTS(decoded)", func() { got, has = uint64(dec.PTS()), dec.HasPTS() }) {
+					return
+				}
+				if !has || got != want {
+					c.Fail("transport", "transport:signal_time_changed", fmt.Sprint(has, got), fmt.Sprint(true, want))
+					return
+				}
+				if sg.Shift != 0 {
+					c.Probe("restamped_signal_through_transport")
+					if uint64(s.Base+sg.T-sg.Shift%ptsMod+ptsMod)%uint64(ptsMod)+uint64(sg.Shift%ptsMod) >= uint64(ptsMod) {
+						c.Probe("pts_time_plus_adjustment_wraps")
+					}
+				}
+			}
 		}
 		switch stp.Fault {
 		case "dup":
